@@ -668,6 +668,24 @@ fn core_select(v: &Vocab, fr: &Frags, rng: &mut Rng, base: usize, ctes: &[String
     match rng.below(6) {
         0 => clauses.push("ORDER BY 1".into()),
         1 => clauses.push(format!("ORDER BY {} DESC", col(q(rng), "id"))),
+        2 => {
+            // several sort keys: plain columns, expressions, positions and function calls, with and without an explicit direction
+            let n = rng.range(2, 4);
+            let mut keys = vec![];
+            for _ in 0..n {
+                let c = col(q(rng), ["id", "x", "y"][rng.below(3)]);
+                let k = match rng.below(5) {
+                    0 => c,
+                    1 => format!("{} + 1", c),
+                    2 => format!("lower({})", c),
+                    3 => (rng.below(3) + 1).to_string(),
+                    _ => format!("coalesce({}, 0)", c),
+                };
+                let dir = ["", "", " ASC", " DESC", " DESC NULLS LAST"][rng.below(5)];
+                keys.push(format!("{}{}", k, dir));
+            }
+            clauses.push(format!("ORDER BY {}", keys.join(", ")));
+        }
         _ => {}
     }
     if rng.chance(1, 6) {
